@@ -44,7 +44,9 @@ WithOthers == {[tag |-> h[1], attrs |-> h[2] \o pre \o <<m>> \o post] :
                            <<Dir("kebab", <<"foo">>, "", <<>>, AvExpr(Ident("dv", FALSE, Opq("vdv"))))>>}}
 
 (* v-models entries: only the array forms exist inside a list *)
-Entries == {VModel(T1, "none", "", Undefined, "none", <<>>), VModel(T2, "str2", "title", Undefined, "none", <<>>),
+Entries1 == VModel(T1, "none", "", Undefined, "none", <<>>)
+Entries2 == VModel(T2, "str2", "title", Undefined, "none", <<>>)
+Entries == {Entries1, Entries2,
             VModel(T3, "none", "", Undefined, "array", <<"trim">>), VModel(T4, "computed2", "", AN, "array", <<"lazy">>),
             VModel(Ident("m5", TRUE, S(<<53>>)), "str2", "foo", Undefined, "array", <<"trim">>)}
 NameOfModel(m) == IF m.argform = "none" THEN "modelValue" ELSE IF m.argform = "computed2" THEN "dyn" ELSE m.arg
@@ -53,10 +55,19 @@ Lists == {[tag |-> h, attrs |-> <<VModels(l)>>] :
             h \in {TagHtml("input"), TagComp("Foo", TRUE, Opq("vFoo"))},
             l \in {l \in SeqsFromTo(Entries, 1, MaxList) : DistinctTargets(l)}}
 
+(* a v-models list followed by several attributes: splitting the list must leave the others where they were written *)
+SpId == Spread(Ident("sp1", FALSE, Obj(<< <<"id", Num(1)>>, <<"foo", Num(2)>> >>)))
+PId  == Plain("id", AvExpr(Ident("u1", FALSE, Num(7))))
+PFoo == Plain("foo", AvExpr(Ident("u2", FALSE, Num(8))))
+ListsWithOthers == {[tag |-> h, attrs |-> pre \o <<VModels(<<Entries1, Entries2>>)>> \o post] :
+                      h \in {TagHtml("input"), TagComp("Foo", TRUE, Opq("vFoo"))},
+                      pre \in {<<>>, <<PFoo>>},
+                      post \in {<<PId, SpId>>, <<SpId, PId>>, <<PId, SpId, PFoo>>, <<SpId, PFoo, PId>>, <<PFoo, PId, SpId>>}}
+
 Opts == {[DefaultOpts EXCEPT !.optimize = opt, !.mergeProps = mp] : opt \in BOOLEAN, mp \in BOOLEAN}
 
 CaseSeq ==
-  LET raw == SetToSeq((Single \cup WithOthers \cup Lists) \X Opts) IN
+  LET raw == SetToSeq((Single \cup WithOthers \cup Lists \cup ListsWithOthers) \X Opts) IN
   [i \in 1..Len(raw) |->
      [case |-> "C05-" \o ToString(i), prop |-> "C05", opts |-> raw[i][2],
       items |-> << [k |-> "export_jsx", name |-> "s1", ctx |-> "module",
